@@ -1388,20 +1388,50 @@ Section Inv.
   (* the blocks the allocator named, and how the block lists of a file may grow: they keep what they had and gain only such blocks *)
   Definition al_blocks (al : list (option (Z * Z))) : list Z :=
     flat_map (fun a => match a with Some (x, y) => [x; y] | None => [] end) al.
-  Definition Grows (L E L' E' : list Z) (al al' : list (option (Z * Z))) : Prop :=
-    incl (L ++ E) (L' ++ E') /\ (forall b, In b (L' ++ E') -> In b (L ++ E) \/ In b (al_blocks al)) /\ incl (al_blocks al') (al_blocks al).
+  (* how the block lists of a file grow during a call, exactly: the answers of the allocator are consumed in order; a refusal is consumed and
+     changes nothing; every block-granting answer appends ONE data block - and, exactly when a further extension block is due
+     (needs_x), one extension block - named by that answer *)
+  Inductive Grows : list Z -> list Z -> list Z -> list Z -> list (option (Z * Z)) -> list (option (Z * Z)) -> Prop :=
+  | G_refl L E al : Grows L E L E al al
+  | G_refused L E L' E' al al' : Grows L E L' E' al (None :: al') -> Grows L E L' E' al al'
+  | G_take L E L' E' al x y al' : Grows L E L' E' al (Some (x, y) :: al') ->
+      Grows L E (L' ++ [if needs_x (len L') then y else x]) (if needs_x (len L') then E' ++ [x] else E') al al'.
   Lemma grows_refl L E al : Grows L E L E al al.
-  Proof. split; [apply incl_refl|split; [intros b Hb; left; exact Hb|apply incl_refl]]. Qed.
+  Proof. apply G_refl. Qed.
   Lemma al_blocks_tl al b : In b (al_blocks (tl al)) -> In b (al_blocks al).
   Proof. destruct al as [|a r]; [intros H; exact H|]. intros H. unfold al_blocks. cbn [flat_map]. apply in_or_app. right. exact H. Qed.
-  Lemma grows_tl L E al : Grows L E L E al (tl al).
-  Proof. split; [apply incl_refl|split; [intros b Hb; left; exact Hb|intros b; apply al_blocks_tl]]. Qed.
+  Lemma grows_tl L E al : (al = [] \/ exists r, al = None :: r) -> Grows L E L E al (tl al).
+  Proof. intros [->|(r & ->)]; [apply G_refl|]. cbn [tl]. apply G_refused, G_refl. Qed.
   Lemma grows_trans L E L1 E1 L2 E2 al al1 al2 : Grows L E L1 E1 al al1 -> Grows L1 E1 L2 E2 al1 al2 -> Grows L E L2 E2 al al2.
   Proof.
-    intros (Hi1 & Hn1 & Ha1) (Hi2 & Hn2 & Ha2). split; [intros b Hb; apply Hi2, Hi1, Hb|split].
-    - intros b Hb. destruct (Hn2 b Hb) as [H|H]; [apply Hn1, H|]. right. apply Ha1, H.
-    - intros b Hb. apply Ha1, Ha2, Hb.
+    intros H1 H2. induction H2 as [L1 E1 al1|L1 E1 L2 E2 al1 al2 _ IH|L1 E1 L2 E2 al1 x y al2 _ IH]; [exact H1|apply G_refused, IH, H1|apply G_take, IH, H1].
   Qed.
+  (* what follows from it: the lists keep what they had, gain only blocks the allocator named, the remaining answers are a suffix, and a
+     data block is linked for every block-granting answer consumed (none is dropped) *)
+  Definition count_some (r : list (option (Z * Z))) : Z := len (filter (fun a => match a with Some _ => true | None => false end) r).
+  Lemma grows_facts L E L' E' al al' : Grows L E L' E' al al' ->
+    incl (L ++ E) (L' ++ E') /\ (forall b, In b (L' ++ E') -> In b (L ++ E) \/ In b (al_blocks al)) /\ incl (al_blocks al') (al_blocks al)
+    /\ exists r, al = r ++ al' /\ len L' = len L + count_some r.
+  Proof.
+    induction 1 as [L E al|L E L' E' al al' _ IH|L E L' E' al x y al' _ IH].
+    - split; [apply incl_refl|]. split; [intros b Hb; left; exact Hb|]. split; [apply incl_refl|]. exists []. split; [reflexivity|]. unfold count_some, len. cbn. lia.
+    - destruct IH as (Hi & Hn & Ha & r & Hr & Hc). split; [exact Hi|]. split; [exact Hn|]. split; [intros b Hb; apply Ha; exact Hb|].
+      exists (r ++ [None]). split; [rewrite <- app_assoc; exact Hr|]. unfold count_some in *. rewrite filter_app. cbn [filter]. rewrite app_nil_r. exact Hc.
+    - destruct IH as (Hi & Hn & Ha & r & Hr & Hc).
+      assert (Hx : In x (al_blocks al) /\ In y (al_blocks al)) by (split; apply Ha; unfold al_blocks; cbn [flat_map app In]; [left|right; left]; reflexivity).
+      split; [|split; [|split]].
+      + intros b Hb. apply Hi in Hb. apply in_app_or in Hb. apply in_or_app. destruct Hb as [Hb|Hb]; [left; apply in_or_app; left; exact Hb|right].
+        destruct (needs_x (len L')); [apply in_or_app; left; exact Hb|exact Hb].
+      + intros b Hb. apply in_app_or in Hb. destruct Hb as [Hb|Hb].
+        * apply in_app_or in Hb. destruct Hb as [Hb|[Hb|[]]]; [apply Hn; apply in_or_app; left; exact Hb|right]. subst b. destruct (needs_x (len L')); apply Hx.
+        * destruct (needs_x (len L')); [|apply Hn; apply in_or_app; right; exact Hb].
+          apply in_app_or in Hb. destruct Hb as [Hb|[Hb|[]]]; [apply Hn; apply in_or_app; right; exact Hb|right; subst b; apply Hx].
+      + intros b Hb. apply Ha. unfold al_blocks. cbn [flat_map]. apply in_or_app. right. exact Hb.
+      + exists (r ++ [Some (x, y)]). split; [rewrite <- app_assoc; exact Hr|]. unfold count_some in *. rewrite filter_app. cbn [filter].
+        rewrite !len_app. rewrite Hc. unfold len at 4. unfold len at 3. cbn. lia.
+  Qed.
+  Lemma grows_incl L E L' E' al al' : Grows L E L' E' al al' -> incl (L ++ E) (L' ++ E').
+  Proof. intros H. apply (grows_facts _ _ _ _ _ _ H). Qed.
   Lemma incl_key (A B : list Z) : incl A B -> incl (key :: A) (key :: B).
   Proof. intros H b [Hb|Hb]; [left; exact Hb|right; apply H, Hb]. Qed.
 
@@ -1475,19 +1505,10 @@ Section Inv.
               destruct (create_next_ok s L E ct x y _ _ _ I R Hw Heof Hm0 eq_refl eq_refl eq_refl Hfn Hfx)
                 as (sc & Hcn & Bsc & Rsc & Lsc & Ccur & Cndb & Cpos & Csz & Cmw & Cmr & Cxc).
               set (n := if needs_x (len L) then y else x) in *. set (L1 := L ++ [n]) in *. set (E1 := if needs_x (len L) then E ++ [x] else E) in *.
-              assert (HGr : Grows L E L1 E1 (Some (x, y) :: al0) al0).
-              { subst L1 E1 n. split; [|split; [|intros b Hb; apply (al_blocks_tl (Some (x, y) :: al0)); exact Hb]].
-                - intros b Hb. apply in_app_or in Hb. apply in_or_app. destruct Hb as [Hb|Hb]; [left; apply in_or_app; left; exact Hb|right].
-                  destruct (needs_x (len L)); [apply in_or_app; left; exact Hb|exact Hb].
-                - intros b Hb. unfold al_blocks. cbn [flat_map app In].
-                  apply in_app_or in Hb. destruct Hb as [Hb|Hb].
-                  + apply in_app_or in Hb. destruct Hb as [Hb|[Hb|[]]]; [left; apply in_or_app; left; exact Hb|right].
-                    destruct (needs_x (len L)); [right; left; exact Hb|left; exact Hb].
-                  + destruct (needs_x (len L)); [|left; apply in_or_app; right; exact Hb].
-                    apply in_app_or in Hb. destruct Hb as [Hb|[Hb|[]]]; [left; apply in_or_app; right; exact Hb|right; left; exact Hb]. }
+              assert (HGr : Grows L E L1 E1 (Some (x, y) :: al0) al0) by (subst L1 E1 n; apply G_take, G_refl).
               assert (HFr : Fr (key :: L1 ++ E1) s (set_pind (set_chg sc false) 0)).
               { intros b Hb. cbn [dk set_pind set_chg].
-                assert (Hb0 : ~ In b (key :: L ++ E)) by (intros Hc; apply Hb; apply (incl_key _ _ (proj1 HGr)); exact Hc).
+                assert (Hb0 : ~ In b (key :: L ++ E)) by (intros Hc; apply Hb; apply (incl_key _ _ (grows_incl _ _ _ _ _ _ HGr)); exact Hc).
                 pose proof (create_next_dk bs ofs s (Some (x, y)) b) as Hd. rewrite Hcn in Hd. cbn [snd] in Hd. apply Hd.
                 - intros Hge Hbc. subst b. destruct (inv_own s L E I) as (_ & [Hz|Hin] & _); [|contradiction].
                   destruct I as (_ & _ & [(Hz0 & _ & Hp0 & _)|(Hcu & Hnn & _)]); [lia|].
@@ -1559,7 +1580,7 @@ Section Inv.
       destruct Hprep as [(al1 & Hpr & Hal1 & Hwhy)|(s1 & al1 & L1 & E1 & Hpr & B1 & W1 & M1 & Hcu1 & Hn1 & P1 & Hpp1 & Hpi1 & Hle1 & Hf1 & Hlen1 & Hxc1 & Hnx1 & HL1 & Hr1 & Hal1 & Hwhy & HFr1 & HGr1)].
       + (* refused: nothing was written, the state is unchanged *)
         rewrite Hpr. cbn [negb]. exists s, 0, al1, L, E.
-        splits; try reflexivity; try assumption; try lia; try apply fr_refl; try (subst al1; apply grows_tl).
+        splits; try reflexivity; try assumption; try lia; try apply fr_refl; try (subst al1; apply grows_tl; exact Hwhy).
         * apply repr_nothing; assumption.
         * intros _. subst al1. destruct Hwhy as [->|(r & ->)]; [exists []; right; split; [reflexivity|trivial]|exists []; left; reflexivity].
       + rewrite Hpr. cbn [negb].
@@ -1584,7 +1605,7 @@ Section Inv.
           rewrite Hmod0. rewrite Hpi1 in Hcfull. lia. }
         assert (HGr : Grows L E L3 E3 al al3) by (apply (grows_trans L E L1 E1 L3 E3 al al1 al3 HGr1 HGr3)).
         assert (HFr : Fr (key :: L3 ++ E3) s s3).
-        { apply (fr_trans2 (key :: L1 ++ E1) _ s s1 s3 (incl_key _ _ (proj1 HGr3)) HFr1).
+        { apply (fr_trans2 (key :: L1 ++ E1) _ s s1 s3 (incl_key _ _ (grows_incl _ _ _ _ _ _ HGr3)) HFr1).
           apply (fr_trans _ s1 s2 s3); [apply fr_dk; reflexivity|exact HFr3]. }
         rewrite Hwl. exists s3, (c + w), al3, L3, E3.
         assert (Hlr : len (skipn (Z.to_nat c) data) = len data - c) by (unfold len; rewrite skipn_length; unfold len in Hc; lia).
@@ -1763,7 +1784,7 @@ Section Inv.
       + destruct (IH s1 (size - cl) al1 L1 E1 (ct ++ zerosZ w) I1 R1 W1 ltac:(lia) (Hal1 ltac:(rewrite len_zerosZ by (subst cl; lia); exact Hfull)) ltac:(subst cl; lia))
           as (s2 & w2 & al2 & L2 & E2 & Hwf & I2 & R2 & Hw2 & P2 & F2 & W2 & M2 & HFr2 & HGr2).
         assert (HGr : Grows L E L2 E2 al al2) by (apply (grows_trans L E L1 E1 L2 E2 al al1 al2 HGr1 HGr2)).
-        assert (HFr : Fr (key :: L2 ++ E2) s s2) by (apply (fr_trans2 (key :: L1 ++ E1) _ s s1 s2 (incl_key _ _ (proj1 HGr2)) HFr1 HFr2)).
+        assert (HFr : Fr (key :: L2 ++ E2) s s2) by (apply (fr_trans2 (key :: L1 ++ E1) _ s s1 s2 (incl_key _ _ (grows_incl _ _ _ _ _ _ HGr2)) HFr1 HFr2)).
         rewrite Hwf. exists s2, (w + w2), al2, L2, E2. rewrite <- app_assoc, zerosZ_app in R2 by lia.
         splits; try reflexivity; try assumption; try lia; try congruence.
       + exists s1, w, al1, L1, E1. splits; try reflexivity; try assumption; try lia.
@@ -1819,7 +1840,7 @@ Section Inv.
     destruct (write_filled_ok_fr (Z.to_nat ((sizeNew - fsize s) / 4096 + 2)) s1 (sizeNew - fsize s) al L E ct I1 R1 ltac:(congruence) ltac:(rewrite P1, Hf1; lia) Hal ltac:(lia))
       as (s2 & w & al2 & L2 & E2 & Hwf & I2 & R2 & Hw2 & P2 & F2 & W2 & M2 & HFr2 & HGr2).
     rewrite Hwf. exists (w =? sizeNew - fsize s), s2, al2, L2, E2. splits; try reflexivity; try assumption.
-    apply (fr_trans2 (key :: L ++ E) _ s s1 s2 (incl_key _ _ (proj1 HGr2)) Hfr0 HFr2).
+    apply (fr_trans2 (key :: L ++ E) _ s s1 s2 (incl_key _ _ (grows_incl _ _ _ _ _ _ HGr2)) Hfr0 HFr2).
   Qed.
 
   (* ---- exhaustion: a refused allocation changes nothing (C08) ---- *)
@@ -1866,11 +1887,12 @@ Section Inv.
     Qed.
 
     Lemma read_loop_faulty L E ct : forall fuel s n, Inv s L E -> Repr s L ct -> cur s <> 0 -> 0 <= n -> pos s + n <= fsize s ->
-      exists s' r m, read_loop bs ofs bad fuel s n = (s', r) /\ 0 <= m <= n /\ r = sub ct (pos s) m /\ len r = m.
+      exists s' r m, read_loop bs ofs bad fuel s n = (s', r) /\ 0 <= m <= n /\ r = sub ct (pos s) m /\ len r = m
+        /\ pos s' = pos s + m /\ Fr (key :: L ++ E) s s'.
     Proof.
       induction fuel as [|fuel IH]; intros s n I R Hc Hn Hle.
-      - exists s, [], 0. splits; try reflexivity; lia.
-      - cbn [read_loop]. destruct (Z.leb_spec n 0) as [Hz|Hz]; [exists s, [], 0; splits; try reflexivity; lia|].
+      - exists s, [], 0. splits; try reflexivity; try apply fr_refl; lia.
+      - cbn [read_loop]. destruct (Z.leb_spec n 0) as [Hz|Hz]; [exists s, [], 0; splits; try reflexivity; try apply fr_refl; lia|].
         assert (Hpos0 : 0 <= pos s) by (destruct (normal_facts s L E I Hc) as (_ & Hnn & Hp & Hpi & _); nia).
         assert (Hlct : len ct = fsize s) by (destruct R as (Hl & _); exact Hl).
         assert (Hprep : (exists sf, (if pind s =? bs
@@ -1878,22 +1900,27 @@ Section Inv.
                                        | (true, sn) => (true, set_chg (set_pind sn 0) false)
                                        | (false, sn) => (false, set_cur sn 0)
                                        end
-                                  else (true, s)) = (false, sf))
+                                  else (true, s)) = (false, sf) /\ pos sf = pos s /\ Fr (key :: L ++ E) s sf)
                  \/ (exists s1, (if pind s =? bs
                                   then match read_next bs ofs bad (settle s) with
                                        | (true, sn) => (true, set_chg (set_pind sn 0) false)
                                        | (false, sn) => (false, set_cur sn 0)
                                        end
                                   else (true, s)) = (true, s1)
-                      /\ Inv s1 L E /\ Repr s1 L ct /\ pos s1 = pos s /\ cur s1 <> 0 /\ 0 <= pind s1 < bs /\ fsize s1 = fsize s)).
+                      /\ Inv s1 L E /\ Repr s1 L ct /\ pos s1 = pos s /\ cur s1 <> 0 /\ 0 <= pind s1 < bs /\ fsize s1 = fsize s /\ Fr (key :: L ++ E) s s1)).
         { destruct (Z.eqb_spec (pind s) bs) as [Hb|Hb].
-          - destruct (read_next bs ofs bad (settle s)) as [[|] sn] eqn:Hrn; [|left; eexists; reflexivity].
+          - pose proof (read_next_dk bs ofs bad (settle s)) as Hdk. pose proof (read_next_pos bs ofs bad (settle s)) as Hps.
+            destruct (settle_ok s L E I) as (_ & _ & (Spos & _) & _).
+            destruct (read_next bs ofs bad (settle s)) as [[|] sn] eqn:Hrn; cbn [snd] in Hdk, Hps.
+            2:{ left. eexists. split; [reflexivity|]. split; [cbn [pos set_cur]; rewrite Hps; exact Spos|].
+                intros x Hx. cbn [dk set_cur]. rewrite Hdk. apply (settle_fr s L E I x Hx). }
             right. destruct (advance_ok s L E ct I R Hc Hb ltac:(lia)) as (sn0 & Hrn0 & I1 & R1 & P1 & C1 & Pi1 & F1 & W1 & M1 & _).
+            pose proof (advance_fr s L E sn0 I Hrn0) as Hfr.
             rewrite (read_next_mono _ _ Hrn) in Hrn0. injection Hrn0 as <-.
             eexists. splits; try reflexivity; try assumption; cbn; try lia. unfold fsize. cbn. unfold fsize in *. cbn in F1. rewrite F1. reflexivity.
-          - right. exists s. destruct (normal_facts s L E I Hc) as (_ & _ & _ & Hpi & _). splits; try reflexivity; try assumption; lia. }
-        unfold settle in Hprep. destruct Hprep as [(sf & Hpr)|(s1 & Hpr & I1 & R1 & P1 & C1 & Hpi1 & F1)]; rewrite Hpr; cbn [negb].
-        + exists sf, [], 0. splits; try reflexivity; lia.
+          - right. exists s. destruct (normal_facts s L E I Hc) as (_ & _ & _ & Hpi & _). splits; try reflexivity; try assumption; try apply fr_refl; lia. }
+        unfold settle in Hprep. destruct Hprep as [(sf & Hpr & Hpf & Hff)|(s1 & Hpr & I1 & R1 & P1 & C1 & Hpi1 & F1 & Hfr1)]; rewrite Hpr; cbn [negb].
+        + exists sf, [], 0. splits; try reflexivity; try assumption; lia.
         + set (size := Z.min n (bs - pind s1)).
           assert (Hsz : 0 < size <= n /\ pind s1 + size <= bs) by (subst size; lia).
           set (s2 := set_pind (set_pos s1 (pos s1 + size)) (pind s1 + size)).
@@ -1904,28 +1931,32 @@ Section Inv.
             - destruct C1' as [(_ & Hz0 & _)|(Hcu & Hnn & Hp & Hpi & Hps & Hlen & Hcl & Hnx & Hxc)]; [contradiction|].
               right. subst s2. unfold fsize, ext_cursor in *. cbn. splits; try assumption; try lia. }
           assert (R2 : Repr s2 L ct) by (apply (repr_frame s1); try reflexivity; assumption).
-          destruct (IH s2 (n - size) I2 R2 C1 ltac:(lia)) as (s3 & r & m & Hrl & Hm & Hr & Hlr).
+          destruct (IH s2 (n - size) I2 R2 C1 ltac:(lia)) as (s3 & r & m & Hrl & Hm & Hr & Hlr & Hp3 & Hfr3).
           { subst s2. unfold fsize in *. cbn. lia. }
+          assert (Hfr : Fr (key :: L ++ E) s s3).
+          { apply (fr_trans _ s s1 s3 Hfr1). apply (fr_trans _ s1 s2 s3); [apply fr_dk; reflexivity|exact Hfr3]. }
+          assert (Hp : pos s3 = pos s + (size + m)) by (rewrite Hp3; subst s2; cbn; lia).
           fold size. fold s2. rewrite Hrl. exists s3, (sub (d_bytes (cdata s1)) (pind s1) size ++ r), (size + m).
-          rewrite (chunk_ok s1 L E ct size I1 R1 C1) by lia. splits; try reflexivity; try lia.
+          rewrite (chunk_ok s1 L E ct size I1 R1 C1) by lia. splits; try reflexivity; try assumption; try lia.
           * rewrite Hr. subst s2. cbn. rewrite P1. rewrite sub_app by lia. reflexivity.
           * rewrite len_app, Hlr. rewrite len_sub by lia. lia.
     Qed.
 
     Theorem fio_read_faulty s L E ct n : Inv s L E -> Repr s L ct -> 0 <= n ->
-      exists s' r m, fio_read bs ofs bad s n = (s', r) /\ 0 <= m <= Z.max 0 (Z.min n (fsize s - pos s)) /\ r = sub ct (pos s) m /\ len r = m.
+      exists s' r m, fio_read bs ofs bad s n = (s', r) /\ 0 <= m <= Z.max 0 (Z.min n (fsize s - pos s)) /\ r = sub ct (pos s) m /\ len r = m
+        /\ pos s' = pos s + m /\ Fr (key :: L ++ E) s s'.
     Proof.
       intros I R Hn. pose proof I as (B & HL & C). pose proof (b_size _ _ _ B) as Hsz.
       assert (Hps : 0 <= pos s <= fsize s) by (destruct C as [(Hz & _ & Hp & _)|(_ & Hnn & Hp & Hpi & Hle & _)]; [lia|nia]).
       unfold fio_read, at_eof.
       destruct (negb (mr s) || (n =? 0) || (fsize s =? 0) || (pos s =? fsize s) || (cur s =? 0)) eqn:Hg.
-      - exists s, [], 0. splits; try reflexivity; lia.
+      - exists s, [], 0. splits; try reflexivity; try apply fr_refl; lia.
       - repeat (apply orb_false_elim in Hg; destruct Hg as (Hg & ?)). destruct (Z.eqb_spec (cur s) 0) as [|Hc]; [discriminate|].
         destruct (Z.eqb_spec n 0); [discriminate|]. destruct (Z.eqb_spec (pos s) (fsize s)); [discriminate|].
         set (n' := if fsize s <? pos s + n then fsize s - pos s else n).
         assert (Hn' : n' = Z.max 0 (Z.min n (fsize s - pos s)) /\ 0 < n') by (subst n'; destruct (Z.ltb_spec (fsize s) (pos s + n)); lia).
         destruct Hn' as (Hk & Hpos').
-        destruct (read_loop_faulty L E ct (Z.to_nat (n' / bs + 2)) s n' I R Hc ltac:(lia) ltac:(lia)) as (s' & r & m & Hrl & Hm & Hr & Hlr).
+        destruct (read_loop_faulty L E ct (Z.to_nat (n' / bs + 2)) s n' I R Hc ltac:(lia) ltac:(lia)) as (s' & r & m & Hrl & Hm & Hr & Hlr & Hp' & Hfr').
         exists s', r, m. rewrite <- Hk. splits; try assumption; lia.
     Qed.
   End Faults.
